@@ -79,7 +79,12 @@ def gen_case(seed):
             s["client_encoding"] = rnd.choice(["utf-8", "utf-8", "latin-1"])
             s["client_socket_timeout"] = rnd.choice([None, None, 0.05, 0.15])
         sessions.append(s)
-    return {"seed": seed, "users": users, "sessions": sessions, "server_encoding": rnd.choice(["utf-8", "utf-8", "latin-1"]), "user_manager": rnd.choice(["memory", "memory", "slow", "digest"])}
+    case = {"seed": seed, "users": users, "sessions": sessions, "server_encoding": rnd.choice(["utf-8", "utf-8", "latin-1"]), "user_manager": rnd.choice(["memory", "memory", "slow", "digest"])}
+    # sessions that stay silent for two seconds after their login are dropped by an idle timeout
+    # in some runs: one more login outcome, and one more occasion to log who was dropped
+    case["idle_timeout"] = rnd.choice([None, None, 0.5, 1.5])
+    case["socket_timeout"] = rnd.choice([None, None, 0.7])
+    return case
 
 
 def needles(pw):
@@ -117,7 +122,7 @@ def run_case(case):
     net = scenario.random_net(rng, allow_small_pipe=not long_pw)
     if long_pw and net.get("seg_mode") == "dribble":
         net["seg_mode"] = "mss"
-    sc = {"seed": case["seed"], "server": {"users": case["users"], "encoding": case["server_encoding"], "wait_future_timeout": 1.0, "user_manager": case.get("user_manager")}, "net": net, "fs": {"delay": None}}
+    sc = {"seed": case["seed"], "server": {"users": case["users"], "encoding": case["server_encoding"], "wait_future_timeout": 1.0, "user_manager": case.get("user_manager"), "idle_timeout": case.get("idle_timeout"), "socket_timeout": case.get("socket_timeout")}, "net": net, "fs": {"delay": None}}
     viol = []
     supplied = []  # every password string any peer supplied
     info = {"logins": 0}
@@ -296,7 +301,7 @@ def run_case(case):
             "events": world.net.seq,
             "steps": world.loop.steps,
             "outcome": world.outcome,
-            "counters": {"log_records_inspected": len(records), "passwords_supplied": len(supplied), "faults.cut_after_pass": sum(1 for s in case["sessions"] if s.get("order") == "cut-after-pass"), "probe.user_limit_configured": sum(1 for u in case["users"] if u.get("maximum_connections"))},
+            "counters": {"log_records_inspected": len(records), "passwords_supplied": len(supplied), "faults.cut_after_pass": sum(1 for s in case["sessions"] if s.get("order") == "cut-after-pass"), "probe.user_limit_configured": sum(1 for u in case["users"] if u.get("maximum_connections")), "probe.idle_timeout_configured_and_a_session_held": int(bool(case.get("idle_timeout")) and any(s.get("hold") for s in case["sessions"]))},
             "violations": out,
         }
         if case.get("want_sample"):
